@@ -126,7 +126,10 @@ def renderMeta (t : Target) : String :=
   let ints := intNames.filterMap (fun n => (m.getInt n).map (fun v => n ++ "=" ++ toString v))
   let bools := boolNames.filterMap (fun n => (m.getBool n).map (fun v => n ++ "=" ++ toString v))
   let strs := strNames.filterMap (fun n => (m.getStr n).map (fun v => n ++ "=" ++ encStr v))
-  bracket (sortStrs (ints ++ bools ++ strs))
+  let sn := match t.serverName with
+    | some v => ["serverName=" ++ encStr v]
+    | none => []
+  bracket (sortStrs (ints ++ bools ++ strs ++ sn))
 
 def enc : String → String := encStr
 
@@ -136,7 +139,12 @@ def exec (s : State) (args : List String) : State × List Event × String :=
   | ["new", thr, ed, excl] =>
       ({ cfg := { futureThr := parseInt thr, eventDriven := ed == "1",
                   excluded := if excl == "-" then [] else (excl.splitOn ",").map decStr } }, [], "ok")
-  | ["add", t] => (s.add (decStr t), [], "ok")
+  | ["new", thr, ed, excl, sn] =>
+      -- a cache created `WithServerName` (`-` = without)
+      ({ cfg := { futureThr := parseInt thr, eventDriven := ed == "1",
+                  excluded := if excl == "-" then [] else (excl.splitOn ",").map decStr,
+                  serverName := if sn == "-" then "" else decStr sn } }, [], "ok")
+  | ["add", t] => (s.addWith (decStr t), [], "ok")
   | ["remove", t, now] =>
       let r := s.remove (decStr t) (parseInt now); (r.1, r.2, renderEventsSeq r.2)
   | ["reset", t, now] =>
@@ -163,6 +171,7 @@ def exec (s : State) (args : List String) : State × List Event × String :=
       match s.get (decStr t) with
       | none => (s, [], "none")
       | some tg => (s, [], renderMeta tg)
+  | "rr" :: _ => (s, [], "mon=ok")    -- Remove of a target while its Reset is being announced: judged by the Go-side monitor only
   | "par" :: _ => (s, [], "mon=ok")   -- parallel writers of one target beside the refresh: judged by the Go-side monitor only
   | _ => (s, [], "bad-op")
 
